@@ -229,7 +229,38 @@ CONTRACTS = {
     returns=('joinstr', '', ('list', 'tok')),
     ensures=[('one-line-per-project-in-project-order', 'len(joined(result)) == self.num_projects'),
              ('each-line-names-the-project-its-lecturer-exactly-its-assignees-and-occupancy-over-capacity', 'forall(j, 0, self.num_projects, line_ok(joined(result)[j], j))')]),
- M + '_get_detailed_lecturer_info': dict(pure_text=True),
+ # C11 long format: one line per lecturer in lecturer order: l_<k>: then for every assigned student s_<student> (p_<project>) (or "no assignment"),
+ # then occupancy/capacity and the target in brackets.  Listing view as above; every assignee contributes two tokens.
+ M + '_get_detailed_lecturer_info': dict(
+    params=PA, requires=PRE, locals={'l_assignments': ('list', ('list', 'tok')), 'lec_lines': ('list', ('list', 'tok'))}, symbolic_repeat=True,
+    defs={'cnt': (['k', 'upto'], 'Count(q, upto, pair_assignments[q].lecturer_index == k)'),
+          'lect': (['q'], 'pair_assignments[q].lecturer_index'),
+          'is_sp': (['L', 'u', 'q'], 'kind(L[u]) == 5 and value(L[u]) == pair_assignments[q].studentID and kind(L[u + 1]) == 10 and value(L[u + 1]) == pair_assignments[q].projectID'),
+          # tokens off .. off + 2 * cnt of L: every token pair is the (student, project) of a pair of lecturer k among the first `upto` ...
+          'only_pairs': (['L', 'off', 'k', 'upto'], 'forall(u, off, off + 2 * cnt(k, upto), implies((u - off) % 2 == 0, exists(q, 0, upto, lect(q) == k and is_sp(L, u, q))))'),
+          # ... and every such pair has its token pair (property form, with an existential position)
+          'all_pairs': (['L', 'off', 'k', 'upto'], 'forall(q, 0, upto, implies(lect(q) == k, exists(u, off, off + 2 * cnt(k, upto), (u - off) % 2 == 0 and is_sp(L, u, q))))'),
+          # the same with the position made explicit: pos(q) = where pair q's tokens were appended in its lecturer's string (ghost history of the first loop)
+          'pos': (['q'], "rec('pos')[q]"),
+          'placed': (['L', 'off', 'k', 'upto'], 'forall(q, 0, upto, implies(lect(q) == k, 0 <= pos(q) and pos(q) % 2 == 0 and pos(q) + 1 < 2 * cnt(k, upto) and is_sp(L, off + pos(q), q)))'),
+          'n': ([], 'len(pair_assignments)'),
+          'tail_ok': (['L', 'k'], 'kind(L[len(L) - 4]) == 0 and value(L[len(L) - 4]) == cnt(k, n()) and kind(L[len(L) - 3]) == 0 and value(L[len(L) - 3]) == self.lec_upper_quotas[k]'
+                      ' and kind(L[len(L) - 2]) == 15 and value(L[len(L) - 2]) == self.lec_targets[k] and kind(L[len(L) - 1]) == 13'),
+          'head_ok': (['L', 'k'], 'kind(L[0]) == 14 and value(L[0]) == k + 1'),
+          'line_placed': (['L', 'k'], 'head_ok(L, k) and tail_ok(L, k)'
+                      ' and ite(cnt(k, n()) == 0, len(L) == 7 and kind(L[1]) == 11 and kind(L[2]) == 12, len(L) == 5 + 2 * cnt(k, n()) and only_pairs(L, 1, k, n()) and placed(L, 1, k, n()))'),
+          'line_ok': (['L', 'k'], 'head_ok(L, k) and tail_ok(L, k)'
+                      ' and ite(cnt(k, n()) == 0, len(L) == 7 and kind(L[1]) == 11 and kind(L[2]) == 12, len(L) == 5 + 2 * cnt(k, n()) and only_pairs(L, 1, k, n()) and all_pairs(L, 1, k, n()))')},
+    loops={0: dict(record={'pos': ('int', 'len(l_assignments[pair.lecturer_index]) - 2')},
+                   invariant=['len(l_assignments) == self.num_lecturers', 'len(l_num_assignments) == self.num_lecturers',
+                              'forall(k, 0, self.num_lecturers, len(l_assignments[k]) == 2 * cnt(k, _k) and l_num_assignments[k] == cnt(k, _k))',
+                              'forall(k, 0, self.num_lecturers, only_pairs(l_assignments[k], 0, k, _k))',
+                              'forall(k, 0, self.num_lecturers, placed(l_assignments[k], 0, k, _k))']),
+           1: dict(invariant=['len(lec_lines) == self.num_lecturers', 'forall(k, 0, _k, line_placed(lec_lines[k], k))', 'forall(k, _k, self.num_lecturers, len(lec_lines[k]) == 0)'])},
+    asserts={'loop1.body_end': [('the-assignee-tokens-follow-the-header-token', 'forall(t, 0, len(entry), kind(lec_lines[k][t + 1]) == kind(entry[t]) and value(lec_lines[k][t + 1]) == value(entry[t]), entry[t])')]},
+    returns=('joinstr', '', ('list', 'tok')),
+    ensures=[('one-line-per-lecturer-in-lecturer-order', 'len(joined(result)) == self.num_lecturers'),
+             ('each-line-names-the-lecturer-exactly-its-assignees-with-their-projects-occupancy-capacity-and-target', 'forall(k, 0, self.num_lecturers, line_ok(joined(result)[k], k))')]),
 
  # ---- reading the matching back from the solution values (C01)
  M + '_get_pair_assignments': dict(
